@@ -214,14 +214,16 @@ class BodyMixin:
                     dct = forms
                 key = item.name
 
-                if key in post:
-                    el = post[key]
-                    if key not in listified:
-                        el = post[key] = dct[key] = [el]
-                        listified.add(key)
-                    el.append(it)
-                else:
-                    post[key] = dct[key] = it
+                # `post` holds everything, `forms` text values only, `files` uploads only
+                for dct_ in (post, dct):
+                    if key in dct_:
+                        el = dct_[key]
+                        if (id(dct_), key) not in listified:
+                            el = dct_[key] = [el]
+                            listified.add((id(dct_), key))
+                        el.append(it)
+                    else:
+                        dct_[key] = it
         except RequestError as err:
             self._raise(err, RequestError)
         return post
